@@ -252,7 +252,7 @@ func Run(c *hx.Ctx) {
 	}
 	def := prmArr(*keypair.GetScryptParameters())
 	// main stream: wallets with light scrypt parameters, histories outside the finding classes
-	for i := 0; i < c.N(130, 1500); i++ {
+	for i := 0; i < c.N(110, 1500); i++ {
 		h := hist{Stream: "light", Prm: lightParams[c.Intn(len(lightParams))], KeyTyp: randKeyTypes(c, 2+c.Intn(3))}
 		seq++
 		runHist(c, h, seq, generator(c, &h, genCfg{nOps: 3 + c.Intn(14)}))
